@@ -328,3 +328,123 @@ func Export() []cp.Case {
 	}
 	return cs
 }
+
+// Meta: every constructor family with two argument tuples, rendered with
+// what the matching accessor returns. Two such calls in two threads must not
+// disturb each other (no shared scratch state), for every schedule with at
+// most two preemptions at the instrumented accesses to package-level state.
+func Meta() []cp.Case {
+	var cs []cp.Case
+	add := func(name string, f func() string) { cs = append(cs, cp.Case{Name: name, Run: f}) }
+	for _, v := range []uint16{0x0102, 0xA1B2} {
+		v := v
+		add(fmt.Sprintf("MetaSequenceNo/%d", v), func() string {
+			m := smf.MetaSequenceNo(v)
+			var g uint16
+			ok := m.GetMetaSeqNumber(&g)
+			return fmt.Sprintf("% X %v %d", []byte(m), ok, g)
+		})
+	}
+	for _, v := range []uint8{3, 14} {
+		v := v
+		add(fmt.Sprintf("MetaChannel/%d", v), func() string {
+			m := smf.MetaChannel(v)
+			var g uint8
+			ok := m.GetMetaChannel(&g)
+			return fmt.Sprintf("% X %v %d", []byte(m), ok, g)
+		})
+		add(fmt.Sprintf("MetaPort/%d", v), func() string {
+			m := smf.MetaPort(v)
+			var g uint8
+			ok := m.GetMetaPort(&g)
+			return fmt.Sprintf("% X %v %d", []byte(m), ok, g)
+		})
+	}
+	for _, n := range []int{5, 200} {
+		n := n
+		add(fmt.Sprintf("MetaText/%d", n), func() string {
+			m := smf.MetaText(string(content(n, n%3)))
+			var g string
+			ok := m.GetMetaText(&g)
+			return fmt.Sprintf("% X %v %q", []byte(m), ok, g)
+		})
+		add(fmt.Sprintf("MetaLyric/%d", n), func() string {
+			m := smf.MetaLyric(string(content(n, 1+n%3)))
+			var g string
+			ok := m.GetMetaLyric(&g)
+			return fmt.Sprintf("% X %v %q", []byte(m), ok, g)
+		})
+		add(fmt.Sprintf("MetaSequencerData/%d", n), func() string {
+			m := smf.MetaSequencerData(content(n, 2))
+			var g []byte
+			ok := m.GetMetaSeqData(&g)
+			return fmt.Sprintf("% X %v % X", []byte(m), ok, g)
+		})
+	}
+	for _, a := range [][5]byte{{1, 2, 3, 4, 5}, {23, 59, 58, 29, 99}} {
+		a := a
+		add(fmt.Sprintf("MetaSMPTE/%v", a), func() string {
+			m := smf.MetaSMPTE(a[0], a[1], a[2], a[3], a[4])
+			var g [5]uint8
+			ok := m.GetMetaSMPTEOffsetMsg(&g[0], &g[1], &g[2], &g[3], &g[4])
+			return fmt.Sprintf("% X %v %v", []byte(m), ok, g)
+		})
+	}
+	for _, a := range [][4]uint8{{3, 4, 24, 8}, {7, 16, 12, 4}} {
+		a := a
+		add(fmt.Sprintf("MetaTimeSig/%v", a), func() string {
+			m := smf.MetaTimeSig(a[0], a[1], a[2], a[3])
+			var g [4]uint8
+			ok := m.GetMetaTimeSig(&g[0], &g[1], &g[2], &g[3])
+			var n, d uint8
+			ok2 := m.GetMetaMeter(&n, &d)
+			return fmt.Sprintf("% X %v %v %v %d/%d", []byte(m), ok, g, ok2, n, d)
+		})
+	}
+	for _, a := range []struct {
+		key, num  uint8
+		maj, flat bool
+	}{{2, 2, true, false}, {8, 4, false, true}} {
+		a := a
+		add(fmt.Sprintf("MetaKey/%v", a), func() string {
+			m := smf.MetaKey(a.key, a.maj, a.num, a.flat)
+			var k, n uint8
+			var mj, fl bool
+			ok := m.GetMetaKeySig(&k, &n, &mj, &fl)
+			var kk smf.Key
+			ok2 := m.GetMetaKey(&kk)
+			return fmt.Sprintf("% X %v %d %d %v %v %v %s | %s", []byte(m), ok, k, n, mj, fl, ok2, kk.String(), m.String())
+		})
+	}
+	for _, bpm := range []float64{120, 61.5} {
+		bpm := bpm
+		add(fmt.Sprintf("MetaTempo/%v", bpm), func() string {
+			m := smf.MetaTempo(bpm)
+			var g float64
+			ok := m.GetMetaTempo(&g)
+			return fmt.Sprintf("% X %v %.6f", []byte(m), ok, g)
+		})
+	}
+	add("named-keys/DMaj+BbMin", func() string {
+		return fmt.Sprintf("% X % X", []byte(smf.DMaj()), []byte(smf.BbMin()))
+	})
+	return cs
+}
+
+// content: n bytes of one of four simple patterns.
+func content(n, pat int) []byte {
+	b := make([]byte, n)
+	for i := range b {
+		switch pat {
+		case 0:
+			b[i] = 0
+		case 1:
+			b[i] = 0xFF
+		case 2:
+			b[i] = byte(i)
+		default:
+			b[i] = "text"[i%4]
+		}
+	}
+	return b
+}
